@@ -139,6 +139,9 @@ fn main() {
             let kind = args.get(2).cloned().unwrap_or_else(|| usage());
             std::process::exit(props::c16::child_main(&kind));
         }
+        Some("c09-server") => {
+            std::process::exit(props::c09::server_main());
+        }
         Some("emit-hash") => {
             let path = args.get(2).cloned().unwrap_or_else(|| usage());
             let bytes = std::fs::read(path).unwrap();
